@@ -155,7 +155,7 @@ def _mat(d):
 
 def strat_programs(tier):
     def build(d):
-        kinds = st.sampled_from(["linear", "sin", "poly", "time", "maxfilter"] + (["secondorder-view", "secondorder-view"] if d >= 2 and d % 2 == 0 else []))
+        kinds = st.sampled_from(["linear", "sin", "poly", "time", "maxfilter", "gated", "gated"] + (["secondorder-view", "secondorder-view"] if d >= 2 and d % 2 == 0 else []))
         return st.builds(lambda nm, kind, A, B, y0, t0, dt, neq, dtv, om: dict(integ=nm, kind=kind, A=A, B=B, y0=y0, t0=t0, dt=dt, neq=neq, dtvec=dtv, omega=om),
                          st.sampled_from(explicit_names()), kinds, _mat(d), _mat(d), st.lists(gen.sfloat(-2, 1), min_size=d, max_size=d), st.one_of(st.just(0.0), gen.sfloat(-2, 2)),
                          gen.logf(-3, 0.5), st.sampled_from([1, 2]) if d >= 2 else st.just(1),
@@ -178,6 +178,19 @@ def rhs_function(case):
         return lambda t, y: (1.0 + math.cos(om * t)) * (A @ y) + math.sin(om * t) * np.diag(B)
     if kind == "maxfilter":
         return lambda t, y: np.maximum(A @ y, np.roll(y, 1)) - y
+    if kind == "gated":
+        # a forcing that is switched off at time t0 + theta*dt (theta = omega/5 in (0,1)): the last block of the right-hand side is EXACTLY zero at the
+        # stages evaluated after the gate and non-zero before it (sources that switch off, valves, pulses)
+        tg = case["t0"] + (om / 5.0) * case["dt"]
+        h = max(1, len(A) // 2)
+
+        def gated(t, y):
+            r = A @ y + np.diag(B)
+            if t > tg:
+                r = r.copy()
+                r[h:] = 0.0
+            return r
+        return gated
     if kind == "secondorder-view":
         # second-order system x'' = g(x, x', t) written as first-order system (x, v)' = (v, g): see check_programs, where the first block of the
         # residual is returned as the array field.data[1] ITSELF (no copy) - natural numpy code, and a pure function of the field
@@ -200,6 +213,8 @@ def check_programs(case):
 
     if case["kind"] == "secondorder-view":
         neq, split = 2, d // 2
+    if case["kind"] == "gated" and d >= 2:
+        neq, split = 2, max(1, d // 2)            # the gated block is the second equation of the field
 
     def fun(k, t, data):
         y = np.concatenate([np.asarray(x, dtype=float) for x in data]) if neq == 2 else np.asarray(data[0], dtype=float)
